@@ -5,6 +5,7 @@ import (
 	"fmt"
 	"math/big"
 	"time"
+	"unsafe"
 
 	kcfg "github.com/kardiachain/go-kardia/configs"
 	"github.com/kardiachain/go-kardia/kai/kaidb/memorydb"
@@ -247,6 +248,14 @@ func (t *ktracer) CaptureState(pc uint64, opc kvm.OpCode, gas, cost uint64, scop
 	f := &t.frames[depth-1]
 	if f.pend.active {
 		f.pend.active = false
+		// Does the return-data buffer share storage with this frame's memory? (Observation
+		// used only to key a difference, never a verdict by itself.)
+		if mem := scope.Memory.Data(); len(rData) > 0 && len(mem) > 0 {
+			p, m0 := uintptr(unsafe.Pointer(&rData[0])), uintptr(unsafe.Pointer(&mem[0]))
+			if p >= m0 && p < m0+uintptr(cap(mem)) {
+				o.RDataAlias = true
+			}
+		}
 		if len(stack) > 0 && stack[len(stack)-1].IsZero() {
 			t.checkReverted(f.pend.lo, f.pend.op, f.pend.self, fmt.Sprintf("%s at pc %d, depth %d", opName(f.pend.op), f.pend.pc, depth))
 		}
